@@ -540,7 +540,15 @@ where
         let rt = tokio::runtime::Builder::new_current_thread().enable_time().start_paused(true).build().expect("runtime");
         let local = tokio::task::LocalSet::new();
         let c2 = ctx.clone();
-        let outcome = match std::panic::catch_unwind(std::panic::AssertUnwindSafe(|| local.block_on(&rt, async move { crate::session::session_main::<K>(c2, si).await }))) {
+        let outcome = match std::panic::catch_unwind(std::panic::AssertUnwindSafe(|| local.block_on(&rt, async move {
+            // watchdog: with the paused clock this timer fires only when no task is runnable and no
+            // other timer is pending, i.e. when everything waits for something that cannot happen
+            tokio::select! {
+                biased;
+                o = crate::session::session_main::<K>(c2, si) => o,
+                _ = tokio::time::sleep(std::time::Duration::from_secs(60 * 24 * 3600)) => crate::session::SessionOutcome::Hung("watchdog".into()),
+            }
+        }))) {
             Ok(o) => o,
             Err(_) => {
                 let msg = PANICS.with(|p| p.borrow().last().cloned()).unwrap_or_default();
